@@ -33,6 +33,7 @@ LEVEL_TEXT = ('Bounded-exhaustive: all short stacks over a value alphabet that c
               'an explicit-state search over use histories checks that serialising never consumes or aliases caller-held values.')
 LEVEL_NOTE = 'trusted: mc/ref/tlb.py (decodes the complete main-net block under block.tlb with nothing left over), mc/ref/cell.py, mc/ref/hashmap.py'
 TECHNIQUE = 'small-scope exhaustive enumeration of stacks against a schema-driven reference decoder, plus explicit-state BFS over use histories'
+RULE += ' History pool additionally holds two reference-written stack cells (empty / 1- / 2-tuples, nested): parse, edit the parsed tuples, parse again.'
 ASSUMPTIONS = ['the bundled block.tlb is the specification of VmStack', 'values are compared logically (cells by hash, slices by remaining bits and references)']
 NOT_ASSERTED = ['the Python types used for control-data fields differ between serialiser input (cells) and parser output (list / dict of slices); they are compared by content',
                 'the 64-bit vs 257-bit form for exactly -2^63 (TON and the schema allow both)', 'NaN and raw bytes values (not in the property\'s list of supported values)']
